@@ -242,6 +242,9 @@ pub struct Run<'a> {
     pub retrying_write: bool,
     /// C13: set the I/O-error status bit before the read-only session mounts
     pub ro_set_io_error_bit: bool,
+    /// C13: an odd but tolerable value patched into the FAT32 boot sector before the read-only session (1: FS-info
+    /// sector field 0, 2: backup boot sector field 0, 3: FS-info trail signature zeroed); a refused mount ends the case
+    pub ro_odd_bpb: u8,
 }
 
 /// a point at which flushing or dropping a handle returned: the file must survive any later power cut
@@ -289,6 +292,7 @@ impl<'a> Run<'a> {
             lib_err: false,
             retrying_write: false,
             ro_set_io_error_bit: false,
+            ro_odd_bpb: 0,
             status_at_mount: vol.status0 & 3,
             last_dec: None,
             pattern_salt: 0,
@@ -1356,6 +1360,25 @@ impl<'a> Run<'a> {
                 }
             }
         });
+        let odd = self.ro_odd_bpb;
+        if odd != 0 && g.width == 32 {
+            let bps = g.bps;
+            self.dev.with(|d| {
+                let mut bk = [0u8; 2];
+                d.store.read_at(50, &mut bk);
+                let bk = u16::from_le_bytes(bk) as u64;
+                let copies: Vec<u64> = if bk != 0 && bk != 0xFFFF { vec![0, bk * bps] } else { vec![0] };
+                match odd {
+                    1 => {
+                        for c in &copies {
+                            d.store.write_at(c + 48, &[0, 0]);
+                        }
+                    }
+                    2 => d.store.write_at(50, &[0, 0]),
+                    _ => d.store.write_at(g.fsinfo_off() + 508, &[0, 0, 0, 0]),
+                }
+            });
+        }
         let (cnt, st) = self.dev.with_store(|s| (refdec::rd32(s, g.fsinfo_off() + 488), refdec::rd8(s, g.status_off())));
         self.ro_fsinfo_unusable = g.width == 32 && (cnt == 0xFFFF_FFFF || cnt as u64 > g.clusters || st & 1 != 0);
         self.vol.access_date = false;
@@ -1367,7 +1390,20 @@ impl<'a> Run<'a> {
         // a read-only session usually happens on a later day than the one the volume was written on (a stamped access
         // date would differ from the stored one)
         self.clock.advance(86_400_000 * 2 + 3_600_000);
-        self.mount()?;
+        if odd != 0 && g.width == 32 {
+            // the library may refuse such a volume (nothing to judge then); if it accepts it the property holds for it
+            match self.mount() {
+                Ok(()) => self.trace.hit("odd_volume_accepted"),
+                Err(v) if v.aspect == Aspect::Harness => {
+                    self.trace.hit("odd_volume_refused");
+                    self.sess = None;
+                    return self.check_readonly("the refused mount");
+                }
+                Err(v) => return Err(v),
+            }
+        } else {
+            self.mount()?;
+        }
         self.check_readonly("mount")?;
         Ok(())
     }
